@@ -8,6 +8,7 @@ import enc as ENC
 import absint as AI
 import interval as IV
 import acc as ACC
+import symb as SY
 from facts import tokens, fmt, short, walk, strip_sites, op_place, const_int
 
 # thorough tier: release configuration only — the dev-configuration pass reports the debug_assert! contract checks of the
@@ -567,6 +568,7 @@ def run(F, R, tier, cfg):
     ENC.install()
     M = accessor_rule(F, R, vts, fns)
     ACC.run(F, R, M, "view", 160)       # 172 sites counted on 8f07ce4 (156 slice-backed view, 14 array-backed, 1 guarded, 1 debug renderer)
+    hrs_rule(F, R, vts)
     dispatch_rule(F, R, vts, M)
     payload_rules(F, R, vts)
     sz_rule(F, R, vts)
@@ -577,3 +579,215 @@ def run(F, R, tier, cfg):
         PN.check_entries(F, R, "C02", fns, cfg)
     finally:
         PN.EXTRA_DISCHARGERS.remove(vd)
+
+
+# ---------------------------------------------------------------------------------------------------------------
+# HRS — View::has_required_size(buf) = Ok(size)  ⇒  size <= buf.len()
+#
+# View::try_from_slice / try_from_mut_slice / try_from_boxed do `buf.split_at_unchecked(size)` with the size that
+# has_required_size reported (a debug_assert only in dev builds).  A constructor whose size check and reported size
+# disagree (check `len >= data`, report `meta + data`) hands out a view that is longer than the input.
+# The rule proves, per Ok exit, one of:
+#   const     size is a constant c and a guard on every path to the exit gives len(buf) >= c
+#   len       size is len(buf) itself
+#   min       size is min(_, len(buf))
+#   guard     a guard on every path to the exit reads len(buf) >= G and size ≡ G (symbolic normal form: helper
+#             functions inlined, field-of-aggregate projected, constants folded)
+#   callee    size is the Ok payload of another function of this family applied to the same buffer
+#   layout    size is Layout::size_bytes(&L) with L the Ok payload of a layout constructor C(buf): the same four
+#             arguments are tried for size_bytes(&P) of every Ok payload P of C, in C's body
+_hrs_memo = {}
+
+
+def _unwrap_try(t):
+    """(call node, True) if t is the Continue payload of `?` applied to a call (through map_err/into wrappers)"""
+    t = SY.nr(strip_sites(t))
+    if t[0] == "field" and t[2] == "0" and t[1][0] == "downcast" and t[1][2] == "Continue":
+        x = t[1][1]
+        if x[0] == "call" and x[1].endswith("::branch") and x[2]:
+            x = x[2][0]
+            while x[0] == "call" and re.search(r"::(map_err|into|from)$", x[1]) and x[2]:
+                x = x[2][0]
+            if x[0] == "call":
+                return x
+    return None
+
+
+def _buf_arg_index(call, param):
+    for i, a in enumerate(call[2]):
+        if SY.nr(a) == ("param", param):
+            return i
+    return None
+
+
+def _le_len(F, fn, b, bb, S, param, depth):
+    """proof that the integer tree S (in the body of fn, at Ok exit bb) is <= len(param); returns reason or None"""
+    S0 = strip_sites(S)
+    Sn = SY.norm(F, S0)
+    ln_ok = lambda t: PN._is_len_of(strip_sites(t), ("param", param))
+    if ln_ok(S0) or (Sn[0] == "call" and re.search(r"::len$", Sn[1]) and Sn[2] and SY.nr(Sn[2][0]) == ("param", param)):
+        return "len"
+    guards = []
+    for g, cond, pol in PN._cmp_guards(b, bb):
+        nn = PN._norm_cmp(cond, pol)
+        if not nn:
+            continue
+        op, x, y = nn
+        if ln_ok(x) and op in ("Ge", "Gt"):
+            guards.append(y)
+        elif ln_ok(y) and op in ("Le", "Lt"):
+            guards.append(x)
+        elif op == "Eq" and (ln_ok(x) or ln_ok(y)):
+            guards.append(y if ln_ok(x) else x)
+    if Sn[0] == "k":
+        lbs = [SY.norm(F, g) for g in guards]
+        if any(g[0] == "k" and g[1] >= Sn[1] for g in lbs):
+            return "const"
+    # equalities established on every path to the exit (`if a != b { return Err }`): S may be replaced by its equal
+    alts = {Sn}
+    for g, cond, pol in PN._cmp_guards(b, bb):
+        nn = PN._norm_cmp(cond, pol)
+        if nn and nn[0] == "Eq":
+            x, y = SY.norm(F, nn[1]), SY.norm(F, nn[2])
+            if x in alts:
+                alts.add(y)
+            elif y in alts:
+                alts.add(x)
+    for g in guards:
+        if SY.norm(F, g) in alts:
+            return "guard" if SY.norm(F, g) == Sn else "guard(=)"
+    for cand in (S0, Sn):
+        if cand[0] == "call" and re.search(r"(::Ord::min|cmp::min)$", cand[1]) and len(cand[2]) == 2:
+            for a in cand[2]:
+                if ln_ok(a) or (SY.nr(a)[0] == "call" and re.search(r"::len$", SY.nr(a)[1]) and SY.nr(SY.nr(a)[2][0]) == ("param", param)):
+                    return "min"
+    c = _unwrap_try(S0)
+    if c is not None and F.has_body(c[1]):
+        i = _buf_arg_index(c, param)
+        if i is not None and depth > 0:
+            r = size_le_len(F, c[1], i + 1, depth - 1)
+            if r[0]:
+                return "callee(%s)" % short(c[1])
+    if S0[0] == "call" and S0[1].endswith("::size_bytes") and len(S0[2]) == 1:
+        c = _unwrap_try(S0[2][0])
+        if c is not None and depth > 0:
+            i = _buf_arg_index(c, param)
+            tgt = c[1]
+            if i is not None and F.has_body(tgt):
+                r = layout_le_len(F, tgt, i + 1, S0[1], depth - 1)
+                if r[0]:
+                    return "layout(%s: %s)" % (short(tgt), r[1])
+    return None
+
+
+def size_le_len(F, fn, param=1, depth=6):
+    """fn returns Result<usize, _>: every Ok(size) has size <= len(param)"""
+    key = (id(F), "s", fn, param)
+    if key in _hrs_memo:
+        return _hrs_memo[key]
+    _hrs_memo[key] = (False, "recursive")
+    b = F.body(fn)
+    res = (False, "no body")
+    if b is not None:
+        oks = [(bb, idx) for (bb, idx, adt, var) in T.result_variant_defs(b) if var == "Ok"]
+        why = []
+        ok = bool(oks)
+        for bb, idx in oks:
+            st = b.stmts(bb)[idx]
+            r = _le_len(F, fn, b, bb, b.origin(st[2][2][0]), param, depth)
+            ok = ok and r is not None
+            why.append(r or "UNPROVEN at %s" % b.span_of(st[3]).loc)
+        res = (ok, ", ".join(why) if oks else "no Ok exit found")
+    _hrs_memo[key] = res
+    return res
+
+
+def layout_le_len(F, fn, param, size_fn, depth=6):
+    """fn returns Result<L, _>: for every Ok(P), size_fn(&P) <= len(param)"""
+    key = (id(F), "l", fn, param, size_fn)
+    if key in _hrs_memo:
+        return _hrs_memo[key]
+    _hrs_memo[key] = (False, "recursive")
+    b = F.body(fn)
+    res = (False, "no body")
+    if b is not None:
+        oks = [(bb, idx) for (bb, idx, adt, var) in T.result_variant_defs(b) if var == "Ok"]
+        if not oks:
+            # pure wrapper: the result is a callee's (through map_err / into)
+            x = SY.nr(strip_sites(b.local_origin(0)))
+            while x[0] == "call" and re.search(r"::(map_err|into|from)$", x[1]) and x[2]:
+                x = x[2][0]
+            if x[0] == "call" and F.has_body(x[1]) and depth > 0:
+                i = _buf_arg_index(x, param)
+                if i is not None:
+                    res = layout_le_len(F, x[1], i + 1, size_fn, depth - 1)
+        else:
+            why, ok = [], True
+            for bb, idx in oks:
+                st = b.stmts(bb)[idx]
+                P = b.origin(st[2][2][0])
+                alts = [a for a in P[1] if isinstance(a, tuple)] if P[0] == "phi" else [P]
+                for P1 in alts:
+                    S = ("call", size_fn, (("ref", "shared", P1),), None)
+                    r = _le_len(F, fn, b, bb, S, param, depth)
+                    if r is None:
+                        r = _enum_variant_le_len(F, fn, b, bb, P1, param, size_fn, depth)
+                    ok = ok and r is not None
+                    why.append(r or "UNPROVEN at %s" % b.span_of(st[3]).loc)
+            res = (ok, ", ".join(sorted(set(why))))
+    _hrs_memo[key] = res
+    return res
+
+
+def _enum_variant_le_len(F, fn, b, bb, P, param, size_fn, depth):
+    """P = Enum::Variant(inner) with inner the Ok payload of an inner layout constructor on the same buffer, and the enum's
+    size_bytes dispatching that variant to the inner layout's size_bytes"""
+    P0 = strip_sites(P)
+    if P0[0] != "agg" or P0[1][0] != "adt" or len(P0[2]) != 1:
+        return None
+    c = _unwrap_try(P0[2][0])
+    if c is None or depth <= 0:
+        return None
+    i = _buf_arg_index(c, param)
+    if i is None:
+        return None
+    variant = P0[1][2]
+    sb = F.body(size_fn)
+    if sb is None:
+        return None
+    # the arm of size_fn for this variant: absint with a tagged aggregate picks the arm; its value must be a call of an inner size_bytes
+    inner_size = None
+    for cc in sb.calls:
+        if cc.indirect or not cc.decl.endswith("::size_bytes"):
+            continue
+        o = SY.nr(strip_sites(sb.origin(cc.args[0])))
+        if o[0] == "field" and o[1][0] == "downcast" and o[1][2] == variant and o[1][1] == ("param", 1):
+            inner_size = cc.res or cc.decl
+    if inner_size is None or not F.has_body(inner_size):
+        return None
+    tgt = c[1]
+    if not F.has_body(tgt):
+        cands = [x for x in F.trait_impls.get("core::convert::TryFrom::try_from", ()) if F.fns[x].get("self_ty") == F.fns[inner_size].get("self_ty")]
+        tgt = cands[0] if len(cands) == 1 else None
+    if tgt is None:
+        return None
+    r = layout_le_len(F, tgt, i + 1, inner_size, depth - 1)
+    return "variant %s -> %s" % (variant, r[1]) if r[0] else None
+
+
+def hrs_rule(F, R, vts):
+    _hrs_memo.clear()
+    n = 0
+    kinds = {}
+    for V, h in sorted(vts.items()):
+        n += 1
+        R.fn(h)
+        ok, why = size_le_len(F, h)
+        kinds[V.split("::")[-1]] = why
+        R.ob("HRS", "%s::has_required_size: Ok(size) => size <= buf.len() [%s]" % (V.split("::")[-1], why[:80]), ok, True,
+             {"rule": "HRS", "view": V, "fn": h, "proof": why, "holds": ok})
+        if not ok:
+            R.violation("HRS", h, "%s::has_required_size can return Ok(size) with size not proven <= buf.len() (%s): View::try_from_slice then "
+                        "splits the input with split_at_unchecked(size) past its end — the view is longer than the bytes it was built from" % (V.split("::")[-1], why), F.loc(h))
+    R.floor("HRS", n, 20, "View impls (has_required_size)")
+    R.extra["hrs"] = kinds
